@@ -281,7 +281,12 @@ func (tr *Tracer) shouldInline(st *state, callee *ssa.Function) bool {
 		return false
 	}
 	if tr.cfg.Inline != nil {
-		return tr.cfg.Inline(callee, depth)
+		if tr.cfg.Inline(callee, depth) {
+			return true
+		}
+		// a function of the module that did not exist when the rules were written is a helper somebody extracted:
+		// its body is part of the caller's logic, so it is always entered (the rules keep seeing the original shape)
+		return depth <= 8 && tr.c.isNewHelper(callee)
 	}
 	if depth > tr.cfg.MaxDepth {
 		return false
@@ -510,4 +515,41 @@ func constStr(s *Sym) (string, bool) {
 		return "", false
 	}
 	return constantStringVal(s), true
+}
+
+// helperName: Type.Method or Func, generic origin, without package.
+func helperName(fn *ssa.Function) string {
+	if o := fn.Origin(); o != nil {
+		fn = o
+	}
+	if r := recvNamed(fn); r != nil {
+		return r.Obj().Name() + "." + fn.Name()
+	}
+	return fn.Name()
+}
+
+// isNewHelper: callee is a source function (or a closure inside one) of the module whose name is not in the
+// frozen table of functions that existed when the rules were written (known_funcs.go).
+func (c *Ctx) isNewHelper(callee *ssa.Function) bool {
+	top := callee
+	for top.Parent() != nil {
+		top = top.Parent()
+	}
+	if callee != top {
+		return false // closures are handled through their own call sites
+	}
+	if top.Synthetic != "" || !c.fnInModule(top) || top.Pkg == nil && top.Origin() == nil {
+		return false
+	}
+	pkg := ""
+	if top.Pkg != nil {
+		pkg = top.Pkg.Pkg.Path()
+	} else if o := top.Origin(); o != nil && o.Pkg != nil {
+		pkg = o.Pkg.Pkg.Path()
+	}
+	names, ok := knownFuncs[pkg]
+	if !ok {
+		return false // a package the table does not know at all: leave it to the rule's own policy
+	}
+	return !names[helperName(top)]
 }
